@@ -1515,6 +1515,18 @@ class Ex:
             fr.yielded.append(v)
             return
         if isinstance(s.value, ast.YieldFrom):
+            g = s.value.value
+            if isinstance(g, ast.GeneratorExp) and len(g.generators) == 1 and not g.generators[0].is_async:
+                # `yield from (elt for x in it if cond)` is, by definition, `for x in it: if cond: yield elt` — executed in that
+                # form so that the loop contract of the explicit loop applies to it as well
+                c = g.generators[0]
+                body = [ast.Expr(value=ast.Yield(value=g.elt))]
+                if c.ifs:
+                    test = c.ifs[0] if len(c.ifs) == 1 else ast.BoolOp(op=ast.And(), values=list(c.ifs))
+                    body = [ast.If(test=test, body=body, orelse=[])]
+                loop = ast.For(target=c.target, iter=c.iter, body=body, orelse=[], lineno=s.lineno, col_offset=s.col_offset)
+                ast.fix_missing_locations(loop)
+                return self.ex_For(loop, fr)
             fr.yielded.extend(self.iterate(self.ev(s.value.value, fr), fr))
             return
         self.ev(s.value, fr)
